@@ -52,7 +52,9 @@ type G struct {
 	done   bool
 	begun  bool
 	Site   string // last scheduling point reached
-	depth  int    // locks held / inside Once.Do
+	held      int // cooperative locks held
+	waitLock  *lockState
+	waitWrite bool
 	nchild int
 	Steps  int // number of times released
 }
@@ -99,6 +101,7 @@ func Run(seed uint64, controlled bool, main func()) (panicked any) {
 	current = nil
 	viols = nil
 	siteHits = map[string]int{}
+	lockWaits = 0
 	mu.Unlock()
 	defer func() {
 		mu.Lock()
@@ -215,7 +218,7 @@ func Yield(site string) {
 		mu.Unlock()
 		return
 	}
-	if !active || g.depth > 0 {
+	if !active {
 		g.Site = site
 		mu.Unlock()
 		return
@@ -230,7 +233,7 @@ func Woke(site string) {
 	id := rtGoid()
 	mu.Lock()
 	g := byGoid[id]
-	if g == nil || g == root || !active || g.depth > 0 {
+	if g == nil || g == root || !active {
 		mu.Unlock()
 		return
 	}
@@ -241,15 +244,8 @@ func Woke(site string) {
 	park(g, site+"!")
 }
 
-// Depth tracks locks held; while > 0 the goroutine never parks.
-func Depth(d int) {
-	id := rtGoid()
-	mu.Lock()
-	if g := byGoid[id]; g != nil {
-		g.depth += d
-	}
-	mu.Unlock()
-}
+// Holding reports whether the goroutine holds a cooperative lock.
+func (g *G) Holding() bool { return g.held > 0 }
 
 // Send replaces a plain channel send statement. A send on a full buffered
 // result channel is the signature of a second completion (C03): it is
@@ -309,12 +305,25 @@ func ParkedGs(buf []*G) []*G {
 	buf = buf[:0]
 	mu.Lock()
 	for _, g := range all {
-		if g.parked && !g.done {
+		if g.parked && !g.done && g.eligible() {
 			buf = append(buf, g)
 		}
 	}
 	mu.Unlock()
 	return buf
+}
+
+// BlockedOnLocks returns parked goroutines that wait for a held lock.
+func BlockedOnLocks() []*G {
+	var out []*G
+	mu.Lock()
+	for _, g := range all {
+		if g.parked && !g.done && !g.eligible() {
+			out = append(out, g)
+		}
+	}
+	mu.Unlock()
+	return out
 }
 
 // Release hands the token to g. The caller must call Wait afterwards.
@@ -325,6 +334,7 @@ func Release(g *G) {
 		panic("simrt: release of a goroutine that is not parked: " + g.String())
 	}
 	g.parked = false
+	g.waitLock = nil
 	g.Steps++
 	current = g
 	mu.Unlock()
@@ -361,6 +371,7 @@ func Free() {
 	for _, g := range all {
 		if g.parked && !g.done {
 			g.parked = false
+			g.waitLock = nil
 			ps = append(ps, g)
 		}
 	}
